@@ -4,6 +4,7 @@ import (
 	"bytes"
 	"fmt"
 	"math"
+	"sort"
 	"strings"
 	"testing"
 
@@ -223,6 +224,40 @@ func propC13(t *rapid.T) {
 	}
 	if diff := hx.Diff(want, got); diff != "" {
 		t.Fatalf("round trip differs: %s\ncsv %q\n%s", diff, clipS(string(out)), desc())
+	}
+	// "with the frame's column types (and enum values) declared": the columns read back are enums over the declared list, so
+	// ordering the read-back frame by one of them follows the declared order (also when the option values served a read before)
+	for _, c := range want.Cols {
+		vals, declared := enumVals[c.Name]
+		if c.Kind != hx.KEnum || !declared || c.Len() < 2 {
+			continue
+		}
+		rank := map[string]int{}
+		for i, v := range vals {
+			rank[v] = i + 1
+		}
+		wantSeq := make([]int, c.Len())
+		for i, p := range c.S {
+			if p != nil {
+				wantSeq[i] = rank[*p]
+			}
+		}
+		sort.Ints(wantSeq)
+		sorted := back.Sort(qframe.Order{Column: c.Name})
+		so, err := hx.Observe(sorted)
+		if err != nil || sorted.Err != nil {
+			t.Fatalf("sorting the read-back frame by %q: %v %v\n%s", c.Name, sorted.Err, err, desc())
+		}
+		sc := so.MustCol(c.Name)
+		for i := range wantSeq {
+			g := 0
+			if sc.S[i] != nil {
+				g = rank[*sc.S[i]]
+			}
+			if g != wantSeq[i] {
+				t.Fatalf("the read-back enum column %q does not order by its declared values %q: position %d holds %s\ncsv %q\n%s", c.Name, vals, i, sc.Cell(i), clipS(string(out)), desc())
+			}
+		}
 	}
 	quoting, digits := false, false
 	for _, c := range in.Cols {
